@@ -341,6 +341,7 @@ func TestVerifC36Gen(t *testing.T) {
 	pages := []pg{
 		{"results", &ResultInput{}}, {"repolist", &RepoListInput{}}, {"print", &PrintInput{}},
 		{"search", &SearchBoxInput{Stats: &zoekt.RepoStats{}}}, {"about", &SearchBoxInput{Stats: &zoekt.RepoStats{}}},
+		{"robots", &struct{}{}},
 	}
 	var sb strings.Builder
 	sb.WriteString("(* GENERATED by harness/overlay/web/zz_verif_c36gen_test.go from /repo/web/templates.go — do not edit.\n")
@@ -386,6 +387,13 @@ func TestVerifC36Gen(t *testing.T) {
 	sk.WriteString("(* data slots inside href/src/action attributes: (page, pipeline after escaping, has a URL escaper, filtered-or-not-at-URL-start) *)\n")
 	sk.WriteString("Definition url_slots : list (string * string * bool * bool) := " + vfC36CoqList(hrefs, "string * string * bool * bool") + ".\n")
 	vfEmit(map[string]any{"kind": "gen", "file": "WebSinks.v", "text": sk.String()})
+	// ---- routes, response sinks, net/http's sniff table
+	rtext, rinfo, err := vfC36RGenText()
+	if err != nil {
+		t.Fatalf("routes translator: %v", err)
+	}
+	vfEmit(map[string]any{"kind": "gen", "file": "WebRoutes.v", "text": rtext})
+	info["routes"] = rinfo
 	info["execs"] = len(execs)
 	info["sinks"] = len(sinks)
 	info["url_slots"] = len(hrefs)
